@@ -8,6 +8,7 @@
 //                                       apply-subnet: 198.51.100.0/30 } in every key order (15 fragments), each with and without a
 //                                       sub-policy reserving 192.0.2.21
 //   policy-addresses/range-ends         apply-range with start == end, start > end (empty), a range crossing an octet boundary
+//   policy-options/null-is-explicit-unset  apply-<name>: null / match-<name>: null for every named option of every type: present, no value
 // Child module of dhcp::config, compiled only under cfg(test) in the scratch copy.
 use super::*;
 
@@ -70,4 +71,21 @@ fn verif_cfg_contracts() {
         t_ends.check(ok, || format!("apply-range {} ..= {}: {}", start, end, match &got { Ok(Ok(p)) => format!("address set {:?}", p.apply_address), Ok(Err(e)) => format!("refused: {}", e), Err(_) => "PANICKED".into() }));
     }
     t_ends.done();
+
+    // `null` on an option key is the explicit "unset / do not send" (apply-) resp. "the client did not send it" (match-) marker, for
+    // EVERY option type: the parsed policy carries the option with no value -- never a default value in its place
+    let mut t_null = Tally::new("policy-options/null-is-explicit-unset");
+    const NAMES: [&str; 75] = ["netmask", "time-offset", "routers", "time-servers", "name-servers", "dns-servers", "log-servers", "quote-servers", "lpr-servers", "impress-servers", "rlp-servers", "host-name", "bootfile-size", "domain-name", "root-path", "extension-file", "forward", "source-route", "max-reassembly", "default-ttl", "mtu-timeout", "mtu", "mtu-subnet", "broadcast", "mask-discovery", "mask-supplier", "router-discovery", "router-request", "trailers", "arp-timeout", "ethernet", "tcp-ttl", "tcp-keepalive", "tcp-keepalive-garbage", "nis-domain", "nis-servers", "ntp-servers", "netbios-namesrv", "netbios-distsrv", "netbios-type", "netbios-scope", "xwindow-font-servers", "xwindow-display", "address-request", "lease-time", "server-id", "message", "max-size", "renewal-time", "rebind-time", "class-id", "client-id", "nisplus-domain", "nisplus-servers", "tftp-server", "home-agent-servers", "smtp-servers", "pop3-servers", "nntp-servers", "www-servers", "finger-servers", "irc-servers", "streettalk-servers", "stda-servers", "user-class", "fqdn", "tz-rule", "tz-name", "autoconfig", "subnet-selection", "dns-searches", "ipv6-preferred", "captive-portal", "routes", "wpad-url"];
+    for name in NAMES {
+        let opt = match dhcppkt::name_to_option(name) { Some(o) => o, None => continue };
+        for key in ["apply", "match"] {
+            let text = format!("match-subnet: 192.0.2.0/24\n{}-{}: null\n", key, name);
+            let docs = yaml::YamlLoader::load_from_str(&text).expect("yaml");
+            let got = std::panic::catch_unwind(|| Config::parse_policy(&docs[0]));
+            let entry = match &got { Ok(Ok(p)) => Some(if key == "apply" { p.apply_other.get(&opt).cloned() } else { p.match_other.get(&opt).cloned() }), _ => None };
+            t_null.check(matches!(entry, Some(Some(None))), || format!("{}-{}: null parsed to {}", key, name,
+                match &got { Ok(Ok(_)) => format!("{:?} (expected the option present with no value)", entry.clone().flatten()), Ok(Err(e)) => format!("an error: {}", e), Err(_) => "a PANIC".into() }));
+        }
+    }
+    t_null.done();
 }
